@@ -318,6 +318,35 @@ fn main() {
         }
     }
     let s2 = s2.merge(s_grid);
+    // long sections: schemas whose three sections hold L components each (L around 64, 128 and 256), every pair of index-addressed
+    // operations (override/override, bump/bump, override + bump) on positions around 0, 32, 64 and the end of one section - a
+    // bookkeeping structure of fixed width (a bit mask, a small array) aliases two positions only in such a schema
+    let mut s_long = Stats::default();
+    {
+        let lens: Vec<usize> = if quick { vec![64, 65, 66, 129, 257] } else { vec![33, 64, 65, 66, 70, 128, 129, 130, 256, 257, 513] };
+        let start = Start { name: "1.2.3-rc.4", args: a(&["--source", "none", "--tag-version", "1.2.3-rc.4"]), stdin: None };
+        for l in lens {
+            let fill = |lit: &str, n: usize| -> String { std::iter::repeat(lit).take(n).collect::<Vec<_>>().join(",") };
+            let ron = format!("(core:[var(Major),{},var(Minor),var(Patch)],extra_core:[var(PreRelease),{},var(Post)],build:[{}])", fill("str(\"p\")", l - 3), fill("uint(0)", l - 2), fill("str(\"b\")", l));
+            let sa = a(&["--schema-ron", &ron]);
+            let init = match run(&start, &sa, &[]) { Ok(Res::Ok(o)) => parse_state(&o).unwrap_or_else(|e| machinery_error(&e)), other => machinery_error(&format!("long schema L={l} failed: {}", truncate(&format!("{other:?}"), 300))) };
+            let env = Env { start: start.clone(), schema_name: Box::leak(format!("long-sections-{l}").into_boxed_str()), schema_args: sa, init, now };
+            let pos: Vec<usize> = { let mut p: Vec<usize> = vec![0, 1, 2, 31, 32, 33, 62, 63, 64, 65, 127, 128, 129, 255, 256, l.saturating_sub(2), l - 1].into_iter().filter(|x| *x < l).collect(); p.sort(); p.dedup(); p };
+            let mut cases: Vec<Vec<Op>> = vec![];
+            for (sec, comps) in [(Section::Core, &env.init.schema.core), (Section::ExtraCore, &env.init.schema.extra_core), (Section::Build, &env.init.schema.build)] {
+                let val = |i: usize| if matches!(comps[i], RComp::Str(_)) { "z".to_string() } else { "4".to_string() };
+                for (x, &i) in pos.iter().enumerate() { for &j in pos.iter().skip(x + 1) {
+                    cases.push(vec![Op::SecOverride(sec.clone(), i.to_string(), val(i)), Op::SecOverride(sec.clone(), j.to_string(), val(j))]);
+                    cases.push(vec![Op::SecBump(sec.clone(), i.to_string(), Some(val(i))), Op::SecBump(sec.clone(), format!("-{}", l - j), Some(val(j)))]);
+                    cases.push(vec![Op::SecOverride(sec.clone(), format!("~{}", l - i), val(i)), Op::SecBump(sec.clone(), j.to_string(), Some(val(j)))]);
+                }}
+                for &i in &pos { cases.push(vec![Op::SecOverride(sec.clone(), i.to_string(), val(i))]); cases.push(vec![Op::SecBump(sec.clone(), i.to_string(), None)]); }
+            }
+            let st = cases.par_iter().map(|ops| { let mut st = Stats::default(); st.inc("long_section_cases"); let order: Vec<usize> = (0..ops.len()).collect(); let first = judge(&ctx, &env, ops, &order, None, &mut st); if ops.len() == 2 { let _ = judge(&ctx, &env, ops, &[1, 0], Some(&first), &mut st); } st }).reduce(Stats::default, Stats::merge);
+            s_long = s_long.merge(st);
+        }
+    }
+    let s2 = s2.merge(s_long);
     // chaining through --source stdin: B applied to the zerv-format output of A
     let mut s3 = Stats::default();
     for env in envs.iter().filter(|e| e.schema_name != "calver-base" || !quick) {
@@ -376,12 +405,12 @@ fn main() {
     }
     let all = total.merge(s2).merge(s3).merge(s4.clone());
     let mut cov = Coverage::default();
-    cov.states = all.get("subsets") + all.get("grid_cases") + all.get("invalid_target_cases") + all.get("boundary_amount_cases") + all.get("chain_runs");
+    cov.states = all.get("subsets") + all.get("long_section_cases") + all.get("grid_cases") + all.get("invalid_target_cases") + all.get("boundary_amount_cases") + all.get("chain_runs");
     cov.transitions = all.get("runs") + all.get("chain_runs");
     cov.evaluations = cov.transitions;
     cov.traces_validated = cov.transitions;
     cov.distinct_nontrivial = all.get("model_ok");
-    cov.rule = format!("flag-instance alphabets of sizes {alpha_sizes:?} per (start version x schema) environment ({} environments: 9 start versions incl. a number-less beta pre-release x 4 schemas): every subset up to size 3 (2 for the literal-heavy schema in quick) run through the real clap parser + run_version_pipeline with --output-format zerv and compared (schema + vars) with R-BUMP; permutations: all orders for subsets up to size {} and the reversed order above; repetition: every pair of section operations (override/override, bump/bump, override/bump; same or different spelling) that denote one component, in both orders; invalid targets and boundary amounts enumerated per section; chaining: every single op, then every op set of size <= {} via --source stdin, model continued from the intermediate state. dense numeric grid (0..=300, neighbourhoods of 2^8..2^64 and 10^2..10^20) as override value / bump amount / override+bump for each of the 7 numeric fields, as --distance, and as index-addressed value / amount on every numeric component ({} grid cases). non-trivial = runs where the model predicts success and the full state is compared", envs.len(), if quick { 2 } else { 3 }, if quick { 1 } else { 2 }, all.get("grid_cases"));
+    cov.rule = format!("flag-instance alphabets of sizes {alpha_sizes:?} per (start version x schema) environment ({} environments: 9 start versions incl. a number-less beta pre-release x 4 schemas): every subset up to size 3 (2 for the literal-heavy schema in quick) run through the real clap parser + run_version_pipeline with --output-format zerv and compared (schema + vars) with R-BUMP; permutations: all orders for subsets up to size {} and the reversed order above; repetition: every pair of section operations (override/override, bump/bump, override/bump; same or different spelling) that denote one component, in both orders; invalid targets and boundary amounts enumerated per section; chaining: every single op, then every op set of size <= {} via --source stdin, model continued from the intermediate state. dense numeric grid (0..=300, neighbourhoods of 2^8..2^64 and 10^2..10^20) as override value / bump amount / override+bump for each of the 7 numeric fields, as --distance, and as index-addressed value / amount on every numeric component ({} grid cases); sections of 64 .. 257 components with every pair of index-addressed operations on positions around 0, 32, 64, 128, 256 and the end ({} cases). non-trivial = runs where the model predicts success and the full state is compared", envs.len(), if quick { 2 } else { 3 }, if quick { 1 } else { 2 }, all.get("grid_cases"), all.get("long_section_cases"));
     cov.exhaustive = true;
     cov.samples = vec![json!({"start":"1.2.3-rc.4","schema":"standard-base-prerelease-post-dev","argv":["--bump-major","--patch","3","--bump-extra-core=~1"]}), json!({"start":"stdin-u64max","schema":"ron-literals","argv":["--bump-major=2"]}), json!({"chain":["--bump-minor"],"then":["--core=0=4"]})];
     cov.set("clause_counts", all.to_json());
